@@ -10,6 +10,7 @@ pub enum DbX {
     File(DbFile),
     Map(Db),
     Any(DbAny),
+    Faulty(DbImpl<crate::fault::Faulty>),
 }
 
 #[macro_export]
@@ -20,6 +21,7 @@ macro_rules! with_db {
             DbX::File($d) => $body,
             DbX::Map($d) => $body,
             DbX::Any($d) => $body,
+            DbX::Faulty($d) => $body,
         }
     };
 }
